@@ -2758,11 +2758,19 @@ class Parameters:
         self_._state_watchers = []
         param_values = self_.values()
         params = {name: param_values[name] for name in param_names}
+        TRIGGER = self_._TRIGGER
         self_._TRIGGER = True
-        self_.update(dict(params, **triggers))
-        self_._TRIGGER = False
-        self_._events += events
-        self_._state_watchers += watchers
+        try:
+            self_.update(dict(params, **triggers))
+        finally:
+            self_._TRIGGER = TRIGGER
+            # Restore the events and watchers that were queued before
+            # triggering, keeping each watcher queued only once
+            self_._events = events + self_._events
+            self_._state_watchers = watchers + [
+                w for w in self_._state_watchers
+                if not any(w is queued for queued in watchers)
+            ]
 
     def _update_event_type(self_, watcher, event, triggered):
         """Return an updated Event object with the type field set appropriately."""
